@@ -69,10 +69,16 @@ func renderTok(t M) string {
 		return kwCase(s, str(t["c"]))
 	case "id":
 		if q, _ := t["q"].(bool); q {
+			if x, _ := t["x"].(bool); x { // spelling: the other kind of quote is written escaped as well
+				return `"` + strings.Replace(escIdent(s), `'`, `\'`, -1) + `"`
+			}
 			return `"` + escIdent(s) + `"`
 		}
 		return s
 	case "str":
+		if x, _ := t["x"].(bool); x {
+			return `'` + strings.Replace(escStr(s), `"`, `\"`, -1) + `'`
+		}
 		return `'` + escStr(s) + `'`
 	case "re":
 		return "/" + strings.Replace(s, "/", `\/`, -1) + "/"
